@@ -45,6 +45,12 @@ CHECKS = {
     design="5/C15",
     note="Trusted: Lean kernel; the heap model covers the Bindings cells only - the other four objects and process-level state are decided by the snapshot/differential observations (sampled over specifications and histories). Fixed finding: Bindings mutated by component construction (commit b0425c0).",
     technique="Lean 4 frame theorem over a reference-cell heap model + snapshot/aliasing/repeatability/history differentials on the real compiler"),
+ "C17": dict(
+    category="proof",
+    text="Lean theorems (Props/C17) over token-level models of the five Lark grammars: einsum_roundtrip - every well-formed Einsum (any number of terms, products and take() with selector, scalars, rank-0 accesses, signed integer coefficients) is read back exactly from its token sequence; directive/rankKey/stamp/level roundtrip AND exactness - the reader accepts a token sequence only if it is the rendering of what it returns, including the extractions num = N+1 and bare-name = position style. Tie: random abstract syntax rendered with random insignificant white space must come back identical from Lark (structural walk) and from the compiler's own extractors (CoordMath coefficients and signs, term structure, take selector/in_update, SpaceTime styles, Architecture instance counts, directive kind/size/leader as they reach the emitted calls); near-miss strings (token deleted/duplicated/swapped, blank inside a multi-character terminal) must be rejected by Lark whenever the Lean reader rejects them.",
+    design="5/C17",
+    note="Trusted: Lean kernel; Lark's lexer/parser and the character level (white space, NUMBER) are outside the model and compared by sampling; exactness for Einsum expressions is sampled (near-miss stream), not proved.",
+    technique="Lean 4 round-trip/exactness proofs for token-level recursive-descent readers + differential against Lark and the IR extractors on rendered random syntax and near misses"),
 }
 
 NOT_YET = {}
